@@ -598,6 +598,148 @@ class TranscriptSequence(Contract):
         I.e.prove('C11/tx-seq/raise/never-with-exons', False)
 
 
+class _SecOut11:
+    """selenocystein = []: appended to once per annotated site, sorted at the end"""
+    def __init__(self, owner):
+        self.owner, self.sorted = owner, False
+
+    def sym_method(self, I, name, a, k):
+        if name == 'append':
+            self.owner._cur.sec_appends.append(a[0])
+            self.sorted = False
+            return None
+        if name == 'sort' and not (a or k):
+            self.sorted = True
+            return None
+        raise Unsupported(f'selenocystein.{name}')
+
+
+@register
+class TranscriptSecSites(TranscriptSequence):
+    """the selenocysteine sites of the transcript sequence record: one interval per annotated site, [transcript index of the first base of the
+    codon in transcript direction, transcript index of its last base + 1), and the list is sorted after the last site was added - on a minus
+    strand transcript the annotated sites come in genomic, i.e. descending transcript, order, and the graph code walks them in one forward
+    pass (shared with C09: Sec termination depends on it)"""
+    props = ('C11', 'C09')
+    assumptions = TranscriptSequence.assumptions[:1] + ('get_transcript_index is its proved contract, used here as an uninterpreted function T of the genomic position; '
+                                                      'list.sort() orders intervals by start',)
+
+    def setup(self, I):
+        st = super().setup(I)
+        e = I.e
+        st.sec_appends = []
+        st.nsec = e.int('n_sec_sites')
+        e.assume(st.nsec >= 0)
+        st.ss, st.se = z3.Function('sec_genomic_start', z3.IntSort(), z3.IntSort()), z3.Function('sec_genomic_end', z3.IntSort(), z3.IntSort())
+        st.T = z3.Function('transcript_index_of_genomic_position', z3.IntSort(), z3.IntSort())
+        zz = lambda i: i if is_z3(i) else z3.IntVal(i)
+        h = st.h
+        st.h.obj.fields['selenocysteine'] = FnView(st.nsec, lambda i: SymObj('SecFeature11', i=zz(i), strand=h.strand,
+                                                                         location=SymObj('FeatureLocation', start=st.ss(zz(i)), end=st.se(zz(i)), strand=h.strand, seqname='chr1',
+                                                                                         reading_frame_index=None, start_offset=0, end_offset=0, ref=None, ref_db=None)), tag='annotated sec sites')
+        return st
+
+    @property
+    def models(self):
+        c = self
+        base = super().models
+
+        def inst(reg):
+            for m in base:
+                m(reg)
+            reg.method_('TranscriptAnnotationModel', 'get_transcript_index', lambda I, o, a, k: c._cur.T(a[0]))
+            reg.ctor_('FeatureLocation', lambda I, a, k: SymObj('FeatureLocation', **{**dict(start=None, end=None, seqname=None, strand=None, reading_frame_index=None, start_offset=0,
+                                                                                            end_offset=0, ref=None, ref_db=None), **dict(zip(['start', 'end'], a)), **k}))
+        return (inst,)
+
+    def havoc1(self, I, env, k):
+        st = self._cur
+        st.secout = _SecOut11(self)
+        env['selenocystein'] = st.secout
+
+    def head1(self, I, env, k):
+        self._cur.m1 = len(self._cur.sec_appends)
+
+    def step1(self, I, env, k):
+        st, h = self._cur, self._cur.h
+        new = st.sec_appends[st.m1:]
+        ok = len(new) == 1 and isinstance(new[0], SymObj) and new[0].cls == 'FeatureLocation'
+        if not ok:
+            return [('one-interval-per-annotated-site', False)]
+        first = z3.If(h.strand == 1, st.ss(k), st.se(k) - 1)        # the first base of the codon in transcript direction
+        last = z3.If(h.strand == 1, st.se(k) - 1, st.ss(k))
+        return [('site-k-mapped-to-the-transcript-positions-of-its-first-and-last-base-in-transcript-direction',
+                 z3.And(new[0].fields['start'] == st.T(first), new[0].fields['end'] == st.T(last) + 1))]
+
+    @property
+    def loops(self):
+        d = dict(super().loops)
+        d[1] = LoopSpec(inv=lambda I, env, k: [], havoc=self.havoc1, on_head=self.head1, step=self.step1, target_after='unknown',
+                        on_break=lambda I, env, k: [('every-annotated-site-is-mapped', False)],
+                        on_exit=lambda I, env, n: [('all-annotated-sites-were-visited', n == self._cur.nsec)])
+        return d
+
+    def post_return(self, I, st, ret):
+        sec = ret.fields.get('selenocysteine')
+        if isinstance(sec, _SecOut11):
+            I.e.prove('C11/tx-seq/sec-sites-sorted-in-transcript-order-after-the-last-one-was-added', sec.sorted)
+        else:
+            I.e.prove('C11/tx-seq/sec-sites-sorted-in-transcript-order-after-the-last-one-was-added', isinstance(sec, list) and not sec and 'secout' not in vars(st))
+
+
+@register
+class CdnaSequence(TranscriptSequence):
+    """get_cdna_sequence: the CDS records concatenated in transcript direction - position i of the result is the strand-corrected chromosome
+    base of the i-th CDS position (on the minus strand the whole concatenation is reverse-complemented, not each record) - with one location
+    that places it at [cds_start, cds_start + length) of the transcript; a transcript without CDS is refused"""
+    qualname = 'TranscriptAnnotationModel.get_cdna_sequence'
+    props = ('C11',)
+    assumptions = TranscriptSequence.assumptions[:1] + ('the CDS records are a well-formed sorted list like the exons (the same list model); get_cds_start_index is its own contract',)
+
+    def setup(self, I):
+        st = super().setup(I)
+        h = st.h
+        h.obj.fields['cds'] = h.exon                 # the CDS list: same shape as an exon list (sorted, disjoint intervals on the chromosome)
+        h.obj.fields['transcript'].fields['attributes']['protein_id'] = 'ENSP_P'
+        st.cds_start = I.e.int('cds_start_index')
+        return st
+
+    @property
+    def models(self):
+        c = self
+        base = super().models
+
+        def inst(reg):
+            for m in base:
+                m(reg)
+            reg.method_('TranscriptAnnotationModel', 'get_cds_start_index', lambda I, o, a, k: c._cur.cds_start)
+            reg.ctor_('FeatureLocation', lambda I, a, k: SymObj('FeatureLocation', **{**dict(start=None, end=None, seqname=None, strand=None, reading_frame_index=None, start_offset=0,
+                                                                                            end_offset=0, ref=None, ref_db=None), **dict(zip(['start', 'end'], a)), **k}))
+            reg.ctor_('MatchedLocation', lambda I, a, k: SymObj('MatchedLocation', **k))
+        return (inst,)
+
+    def post_return(self, I, st, ret):
+        e, h = I.e, st.h
+        seq = ret.fields['seq']
+        L = h.cum(h.n)
+        e.prove('C11/cdna/length=sum-of-cds-lengths', seq.length() == L)
+        j, i = z3.Ints('j_p i_p')
+        plus = z3.Implies(z3.And(0 <= j, j < h.n, h.cum(j) <= i, i < h.cum(j + 1)), seq.get(i) == st.C.get(h.s[j] + i - h.cum(j)))
+        minus = z3.Implies(z3.And(0 <= j, j < h.n, L - h.cum(j + 1) <= i, i < L - h.cum(j)), seq.get(i) == cmpl(st.C.get(h.e[j] - 1 - (i - (L - h.cum(j + 1))))))
+        e.prove('C11/cdna/base-i=strand-corrected-chromosome-base-of-the-i-th-cds-position', z3.If(h.strand == 1, plus, minus))
+        locs = ret.fields.get('locations')
+        ok = isinstance(locs, list) and len(locs) == 1 and isinstance(locs[0], SymObj) and isinstance(locs[0].fields.get('ref'), SymObj) and isinstance(locs[0].fields.get('query'), SymObj)
+        if ok:
+            q, r = locs[0].fields['query'], locs[0].fields['ref']
+            e.prove('C11/cdna/placed-at-the-cds-start-of-the-transcript', z3.And(q.fields['start'] == 0, q.fields['end'] == L, r.fields['start'] == st.cds_start, r.fields['end'] == st.cds_start + L)
+                    if r.fields['seqname'] == 'ENST_T' else False)
+        else:
+            e.prove('C11/cdna/placed-at-the-cds-start-of-the-transcript', False)
+
+    def post_raise(self, I, st, exc):
+        I.e.prove('C11/cdna/raise/never-with-cds-records', False)
+
+
 # ----------------------------------------------------------------------------
 # on-disk annotation: the loading cache of GenePointerDict / TranscriptPointerDict
 # ----------------------------------------------------------------------------
@@ -1181,6 +1323,7 @@ def synthetic_gtf(n_genes, rng, non_ascii=False):
     lines = ['##description: synthetic annotation' + (' \u00e9\u00fc\u4e2d' if non_ascii else '')]
     pos = 100
     truth = {}
+    truth_tags = synthetic_gtf.tags = {}
     for g in range(n_genes):
         strand = rng.choice('+-')
         gid = f'ENSG{g:05d}.1'
@@ -1200,11 +1343,15 @@ def synthetic_gtf(n_genes, rng, non_ascii=False):
         ga = f'gene_id "{gid}"; gene_type "protein_coding"; gene_name "{name}";'
         lines.append(f'chr1\tHAVANA\tgene\t{gstart + 1}\t{gend}\t.\t{strand}\t.\t{ga}')
         for tid, exons in txs:
-            ta = f'gene_id "{gid}"; transcript_id "{tid}"; gene_type "protein_coding"; gene_name "{name}"; transcript_type "protein_coding";'
+            # GENCODE records carry several `tag` attributes; the NF tags decide how the transcript is translated
+            tags = rng.sample(['basic', 'cds_start_NF', 'mRNA_end_NF', 'mRNA_start_NF', 'CCDS'], rng.randint(0, 3))
+            ta = f'gene_id "{gid}"; transcript_id "{tid}"; gene_type "protein_coding"; gene_name "{name}"; transcript_type "protein_coding";' \
+                + ''.join(f' tag "{t_}";' for t_ in tags)
             lines.append(f'chr1\tHAVANA\ttranscript\t{exons[0][0] + 1}\t{exons[-1][1]}\t.\t{strand}\t.\t{ta}')
             for a, b in exons:
                 lines.append(f'chr1\tHAVANA\texon\t{a + 1}\t{b}\t.\t{strand}\t.\t{ta}')
             truth[tid] = (gid, strand, exons)
+            truth_tags[tid] = tags
         truth[gid] = (gstart, gend, strand, [t for t, _ in txs])
         pos = gend + rng.randint(10, 40)
     return '\n'.join(lines) + '\n', truth
@@ -1262,9 +1409,10 @@ class NativeOnDisk(NativeCheck):
                     else:
                         m = anno.transcripts[k]
                         gid, strand, exons = truth[k]
+                        tags = synthetic_gtf.tags.get(k, [])
                         got = (m.transcript.gene_id, '+' if m.transcript.strand == 1 else '-',
-                               [(int(x.location.start), int(x.location.end)) for x in m.exon])
-                        exp = (gid, strand, exons)
+                               [(int(x.location.start), int(x.location.end)) for x in m.exon], m.is_cds_start_nf(), m.is_mrna_end_nf())
+                        exp = (gid, strand, exons, 'cds_start_NF' in tags, 'mRNA_end_NF' in tags)
                 except Exception as ex:
                     return dict(call=f'lookup #{step} of valid key {k}', observed=f'{type(ex).__name__}: {ex}', expected='the annotated model',
                                 signature='valid-key-lookup-fails')
